@@ -12,7 +12,7 @@ class Q { ks: K // ","; tail: Opt(P) }
 class L { first: K; pass ":"; let skip: W; second: Opt(K) }
 Pair(x) = [x, ":", x]
 '''
-IGN = 'ignore /[ \\n]+/\n'
+IGN = 'ignore /[ \\n\\r\\x0b\\x0c\\x85\\u2028]+/\n'
 REFS = [('ref', x) for x in ('K', 'Z', 'P', 'Q', 'L', 'D', 'W')]
 NULLABLE = {'K': False, 'Z': True, 'P': False, 'Q': True, 'L': False, 'D': False, 'W': False}
 SPECIALS = [
@@ -46,7 +46,8 @@ def exprs(rnd, n):
 def jobs_for(tier, rnd):
     jobs, gid = [], 0
     T1 = G.texts('1a,', 4, extra=('1a:b1b', '1a:b', '1a1', '1a11a', '1ab,1b,1a', '1a:1a', '1a:b:1a:b1a', '1a1b:b', '1b,1a1a1'))
-    T2 = ['1a\n1b', ' 1a', '1a \n 1b ', '1 a', '\n\n1a\n', '1a , 1b', '1a : b 1b', ' 1a1 ', '1a:1a']
+    T2 = ['1a\n1b', ' 1a', '1a \n 1b ', '1 a', '\n\n1a\n', '1a , 1b', '1a : b 1b', ' 1a1 ', '1a:1a',
+          '1a\r1b', '1a\x0c1b 1a', '1a\x0b\n1b', '1a\u20281b', '\r\n1a\r\n1b', '1a\x851a', '1a \x0c 1b\n1a']
     es = exprs(rnd, 260 if tier == 'quick' else 100000)
     for kind, e in es:
         for ign in (False, True):
